@@ -2,6 +2,8 @@ CONSTANTS
   MaxLabel = 63
   MaxName = 255
   MaxRefs = 16
+  LabelCap = 62
+  OutCap = 253
 INIT Init
 NEXT NextC13
 CHECK_DEADLOCK FALSE
